@@ -16,6 +16,7 @@ import (
 	"github.com/freeconf/yang/node"
 	"github.com/freeconf/yang/nodeutil"
 	"github.com/freeconf/yang/parser"
+	"github.com/freeconf/yang/source"
 	"verif/internal/eng"
 	"verif/internal/model"
 	"verif/internal/store"
@@ -28,7 +29,7 @@ type c20 struct{ base }
 func init() {
 	model.Schemas["shared"] = `module shared { yang-version 1.1; namespace "urn:shared"; prefix sh; revision 0;
   feature f1;
-  identity base-id; identity id-a { base base-id; } identity id-b { base id-a; }
+  identity base-id; identity id-a { base base-id; } identity id-b { base id-a; } identity id-z { base base-id; } identity id-m { base base-id; } identity id-y { base id-a; } identity id-c { base id-a; }
   typedef t1 { type int32 { range "0..100"; } default 7; units "u"; }
   grouping g { leaf gl { type t1; } container gc { leaf gx { type string { pattern "[a-z]*"; length "0..8"; } } } }
   leaf top { type string; }
@@ -50,7 +51,7 @@ type c20Case struct {
 	Choices []int `json:"choices,omitempty"`
 }
 
-var c20Ops = []string{"load", "json", "xml", "upsert", "find", "delete", "constrain", "set"}
+var c20Ops = []string{"load", "json", "xml", "upsert", "find", "delete", "constrain", "set", "schema"}
 
 // CaseDeadline: one scenario explores up to 400000 schedules. Cases run in worker processes
 // because a data race in the library can end in a fatal error of the Go runtime (concurrent
@@ -171,6 +172,23 @@ func c20Body(op string, m *meta.Module, out *string) func(yield func()) {
 				return
 			}
 			res.WriteString(model.DumpModule(lm, model.FullDump()).String())
+		case "schema":
+			// the compiled module itself is exported, through both schema browsers of the library
+			fcYang := c20FcYang()
+			w := &yieldWriter{yield: yield}
+			wtr := &nodeutil.JSONWtr{Out: w}
+			err := nodeutil.Schema(fcYang, m).Root().UpsertInto(wtr.Node())
+			w2 := &yieldWriter{yield: yield}
+			wtr2 := &nodeutil.JSONWtr{Out: w2}
+			err2 := nodeutil.SchemaBrowser(fcYang, m).Root().UpsertInto(wtr2.Node())
+			// (the older browser stops at the first choice: its identities are exported on their own)
+			w3 := &yieldWriter{yield: yield}
+			wtr3 := &nodeutil.JSONWtr{Out: w3}
+			ids, err3 := nodeutil.Schema(fcYang, m).Root().Find("module/identity")
+			if err3 == nil && ids != nil {
+				err3 = ids.UpsertInto(wtr3.Node())
+			}
+			fmt.Fprintf(&res, "err=%v err2=%v err3=%v out=%s out2=%s out3=%s", err, err2, err3, w.buf.String(), w2.buf.String(), w3.buf.String())
 		case "json":
 			_, b := newStore()
 			w := &yieldWriter{yield: yield}
@@ -236,7 +254,21 @@ func c20Body(op string, m *meta.Module, out *string) func(yield func()) {
 var (
 	c20Mu     sync.Mutex
 	c20Module *meta.Module
+	c20Yang   *meta.Module
 )
+
+// c20FcYang: the library's own module describing YANG (needed by its schema browsers), loaded once
+func c20FcYang() *meta.Module {
+	c20Mu.Lock()
+	defer c20Mu.Unlock()
+	if c20Yang == nil {
+		var err error
+		if c20Yang, err = parser.LoadModule(source.Dir("/repo/yang"), "fc-yang"); err != nil {
+			panic("harness: fc-yang: " + err.Error())
+		}
+	}
+	return c20Yang
+}
 
 func c20Shared() *meta.Module {
 	c20Mu.Lock()
